@@ -519,7 +519,7 @@ def workflow_request(spec, env_entries):
     return {"op": "workflow", "env": env_entries, "steps": steps}
 
 
-def impl_workflow(spec):
+def impl_workflow(spec, name: str = "wf-under-test"):
     """observation of the real prepare_workflow (called directly; its references resolve through the real cache)"""
     import copy
 
@@ -528,7 +528,7 @@ def impl_workflow(spec):
     from koreo.workflow.prepare import prepare_workflow
 
     try:
-        got = ku.run(prepare_workflow("wf-under-test", copy.deepcopy(spec)))
+        got = ku.run(prepare_workflow(name, copy.deepcopy(spec)))
     except Exception as e:  # noqa: BLE001
         return {"raise": type(e).__name__ + ": " + str(e)[:100]}
     if not isinstance(got, tuple):
@@ -685,6 +685,308 @@ def _workflow_batch(ck: Check, drv: LeanDriver, n: int, r, env_entries):
         mine = {k: got[k] for k in ("steps", "ready", "watched", "pp")}
         if model != mine:
             ck.disagree({"kind": "workflow", "spec": spec}, model, mine, "prepare_workflow-observables")
+
+
+# --------------------------------------------------------------------------- sequences of preparations in one process
+#
+# Whether a step names a later / unknown label is a fact about the Workflow that is being prepared NOW: the same step
+# spec is fine after `base` and must be rejected before it, or in a Workflow without `base`.  A controller process
+# prepares many Workflows, and the same Workflow again after every update, so the clauses have to hold for every
+# preparation of a *sequence*, whatever was prepared before.  Each generated sequence runs in a child forked from a
+# pristine interpreter (koreo imported, nothing prepared): the sequence is then the complete history, and the
+# recorded witness reproduces from a fresh process.
+
+class Cold:
+    """a pristine interpreter that forks one child per request; the child prepares the world (`setup_cache`) and then
+    the given Workflows in order, and answers with the observations of `impl_workflow`"""
+
+    def __init__(self):
+        import os
+        import subprocess
+        import sys
+
+        self.p = subprocess.Popen([sys.executable, os.path.abspath(__file__), "--cold-server"], stdin=subprocess.PIPE,
+                                  stdout=subprocess.PIPE, text=True, env=dict(os.environ))
+
+    def run(self, items) -> list:
+        """items: [{"name": …, "spec": …}] -> one observation per item"""
+        try:
+            self.p.stdin.write(json.dumps([{"name": it.get("name", "wf-under-test"), "spec": it["spec"]}
+                                           for it in items]) + "\n")
+            self.p.stdin.flush()
+            line = self.p.stdout.readline()
+        except OSError as e:
+            raise common.Infra(f"cold interpreter unavailable: {e}")
+        if not line:
+            raise common.Infra("cold interpreter ended")
+        out = json.loads(line)
+        if isinstance(out, dict):       # the child did not get to an answer: the tree under test took the process down
+            return [{"raise": "the preparing process ended: " + str(out.get("error"))[:100]} for _ in items]
+        return out
+
+    def close(self):
+        try:
+            self.p.stdin.close()
+            self.p.wait(timeout=10)
+        except Exception:
+            self.p.kill()
+
+
+_COLD = None
+
+
+def cold() -> Cold:
+    global _COLD
+    if _COLD is None:
+        import atexit
+
+        _COLD = Cold()
+        atexit.register(_COLD.close)
+    return _COLD
+
+
+def _cold_server():
+    """`python c14.py --cold-server`: line in = a sequence, line out = its observations (made in a forked child)"""
+    import os
+    import sys
+
+    import koreo_util as ku  # noqa: F401
+    import koreo.workflow.prepare  # noqa: F401
+    import koreo.resource_function.prepare  # noqa: F401
+    import koreo.value_function.prepare  # noqa: F401
+
+    cel_env()
+
+    # lazy one-time initialisations (celpy's parser, the schema validators, kr8s classes) happen here, once, rather
+    # than in every child; only Functions are offered (no Workflow is prepared before the fork) and the cache is reset
+    async def warm():
+        await _offer("ValueFunction", "warm-up", VF_OK)
+        await _offer("ResourceFunction", "warm-up", RF_OK)
+
+    ku.reset()
+    ku.run(warm())
+    ku.reset()
+    SETUP_FAILURES.clear()
+    out = sys.stdout
+    for line in sys.stdin:
+        line = line.strip()
+        if not line:
+            continue
+        items = json.loads(line)
+        rfd, wfd = os.pipe()
+        pid = os.fork()
+        if pid == 0:
+            code = 0
+            try:
+                os.close(rfd)
+                setup_cache()
+                obs = [impl_workflow(it["spec"], it.get("name", "wf-under-test")) for it in items]
+                data = json.dumps(obs).encode()
+                while data:
+                    data = data[os.write(wfd, data):]
+            except BaseException as e:  # noqa: BLE001
+                try:
+                    os.write(wfd, json.dumps({"error": type(e).__name__ + ": " + str(e)[:200]}).encode())
+                except Exception:
+                    pass
+                code = 1
+            finally:
+                os._exit(code)
+        os.close(wfd)
+        chunks = []
+        while True:
+            b = os.read(rfd, 1 << 16)
+            if not b:
+                break
+            chunks.append(b)
+        os.close(rfd)
+        os.waitpid(pid, 0)
+        data = b"".join(chunks).decode()
+        try:
+            json.loads(data)
+        except Exception:
+            data = json.dumps({"error": "no answer from the preparing child"})
+        out.write(data + "\n")
+        out.flush()
+
+
+def gen_sequence(r):
+    """[{"name", "spec", "truth", "how"}]: a Workflow, then updates of it (steps reordered / dropped / kept / one more
+    step in front) and other Workflows made of the very same step specs.  The per-step ground truth (which labels a
+    step names, which Logic) does not depend on where the step stands; which labels are *earlier* does."""
+    import copy
+
+    while True:
+        spec, truth = gen_workflow(r)
+        if len(spec["steps"]) >= 2 or r.random() < 0.2:
+            break
+    pairs = list(zip(spec["steps"], truth))
+    items = [{"name": "wf-under-test", "spec": spec, "truth": truth, "how": "first"}]
+    for _ in range(r.randint(1, 3)):
+        p = list(pairs)
+        how = r.choice(["reverse", "shuffle", "swap", "drop", "drop-first", "same", "other-front", "rotate"])
+        name = "wf-under-test" if r.random() < 0.6 else "wf-other"
+        if how == "reverse":
+            p.reverse()
+        elif how == "shuffle":
+            r.shuffle(p)
+        elif how == "swap" and len(p) >= 2:
+            i = r.randrange(len(p) - 1)
+            p[i], p[i + 1] = p[i + 1], p[i]
+        elif how == "drop" and len(p) >= 2:
+            del p[r.randrange(len(p))]
+        elif how == "drop-first" and len(p) >= 2:
+            del p[0]
+        elif how == "rotate" and len(p) >= 2:
+            p = p[1:] + p[:1]
+        elif how == "other-front":
+            # the same steps behind a step of another label; one of the original steps leaves
+            used = {st.get("label") for st, _ in p}
+            free = [l for l in LABELS if l not in used]
+            if free:
+                kind, nm = r.choice(READY_REFS)
+                front = ({"label": r.choice(free), "ref": {"kind": kind, "name": nm}},
+                         {"named": [], "logic": [(kind, nm)], "switch_ok": True, "is_switch": False})
+                if len(p) >= 2:
+                    del p[r.randrange(len(p))]
+                p = [front] + p
+        if not p:
+            p = list(pairs)
+        items.append({"name": name, "spec": {"steps": [copy.deepcopy(st) for st, _ in p]},
+                      "truth": [copy.deepcopy(t) for _, t in p], "how": how})
+        if r.random() < 0.5:
+            pairs = p        # the next update starts from this one
+    return items
+
+
+def sequence_oracle(items, obs):
+    """(index, message) of the first preparation of the sequence that breaks a clause, or None"""
+    for i, (it, got) in enumerate(zip(items, obs)):
+        bad = workflow_oracle(it["spec"], it["truth"], got)
+        if bad is not None:
+            before = "a cold process" if i == 0 else f"{i} earlier preparation(s) in the same process"
+            return i, f"preparation #{i + 1} ({it.get('name', 'wf-under-test')}, after {before}): {bad}"
+    return None
+
+
+def shrink_sequence(items, budget: int = 60):
+    """`items` ends with the failing preparation: drop earlier preparations, then steps, while the LAST one still
+    fails when the sequence runs from a cold process"""
+    import copy
+
+    left = [budget]
+
+    def fails(cand):
+        if left[0] <= 0:
+            return False
+        left[0] -= 1
+        obs = cold().run(cand)
+        return workflow_oracle(cand[-1]["spec"], cand[-1]["truth"], obs[-1]) is not None
+
+    last = items[-1]
+    prefix = items[:-1]
+    if prefix and fails([last]):
+        prefix = []
+    elif len(prefix) >= 2:
+        for i in range(len(prefix) - 1, -1, -1):
+            cand = prefix[:i] + prefix[i + 1:]
+            if fails(cand + [last]):
+                prefix = cand
+    cur = [copy.deepcopy(x) for x in prefix + [last]]
+    changed = True
+    while changed and left[0] > 0:
+        changed = False
+        for k in range(len(cur)):
+            steps = cur[k]["spec"]["steps"]
+            for i in range(len(steps)):
+                if len(steps) <= 1:
+                    break
+                cand = copy.deepcopy(cur)
+                del cand[k]["spec"]["steps"][i]
+                del cand[k]["truth"][i]
+                if fails(cand):
+                    cur, changed = cand, True
+                    break
+            if changed:
+                break
+    return cur
+
+
+def run_sequences(ck: Check, drv: LeanDriver, n: int, r):
+    setup_cache()
+    env_entries = [cache_state(k, nm) for k, nm in REFS]
+    reqs, keep = [], []
+    for _ in range(n):
+        items = gen_sequence(r)
+        obs = cold().run(items)
+        ck.evaluated(len(items))
+        ck.count("sequence")
+        for it, got in zip(items[1:], obs[1:]):
+            ck.count("sequence-step:" + it["how"])
+            ck.count("sequence-later-preparation:" + ("raise" if "raise" in got else "gate" if "gate" in got
+                                                      else got["ready"]))
+        # a step that was prepared at one place and stands, unchanged, where it names a later / unknown label
+        moved = False
+        for j in range(1, len(items)):
+            lj = [s.get("label") for s in items[j]["spec"]["steps"]]
+            for i, (st, tr) in enumerate(zip(items[j]["spec"]["steps"], items[j]["truth"])):
+                if set(tr["named"]) - set(lj[:i]):
+                    for k in range(j):
+                        for i0, st0 in enumerate(items[k]["spec"]["steps"]):
+                            if st0 == st and "steps" in obs[k] and i0 < len(obs[k]["steps"]) \
+                                    and "deps" in obs[k]["steps"][i0]:
+                                moved = True
+        if moved:
+            ck.count("sequence:prepared-step-moved-to-a-bad-place")
+            ck.nontriv(hash(json.dumps([it["spec"] for it in items], sort_keys=True)))
+        hit = sequence_oracle(items, obs)
+        if hit is not None:
+            idx, bad = hit
+            if len(ck.violations) < 40:
+                small = items[:idx + 1]
+                if sum(1 for v in ck.violations if v["case"].get("kind") == "sequence") < 5:
+                    small = shrink_sequence(small)
+                obs2 = cold().run(small)
+                hit2 = sequence_oracle(small, obs2)
+                ck.violate({"kind": "sequence",
+                            "items": [{"name": it.get("name", "wf-under-test"), "spec": it["spec"],
+                                       "truth": it["truth"]} for it in small]},
+                           hit2[1] if hit2 else bad)
+            else:
+                ck.count("further-violations")
+        try:
+            reqs.append({"op": "workflowSeq", "env": env_entries,
+                         "seq": [workflow_request(it["spec"], env_entries)["steps"] for it in items]})
+        except UnknownNode as u:
+            ck.disagree({"kind": "sequence", "items": items}, "no constructor", str(u), "parse-tree-kinds")
+            continue
+        keep.append((items, obs))
+    answers = ask(ck, drv, reqs, chunk=200)
+    for (items, obs), ans in zip(keep, answers):
+        if ans is None:
+            continue
+        if len(ck.disagreements) > 300:
+            ck.count("further-disagreements")
+            continue
+        results = ans.get("results") if isinstance(ans, dict) else None
+        if not isinstance(results, list) or len(results) != len(items):
+            ck.disagree({"kind": "sequence", "items": items}, ans, "one result per preparation", "workflowSeq-shape")
+            continue
+        for i, (it, got, a) in enumerate(zip(items, obs, results)):
+            if "gate" in got:
+                continue
+            if "raise" in a or "raise" in got:
+                if ("raise" in a) != ("raise" in got):
+                    ck.disagree({"kind": "sequence", "items": items[:i + 1]}, a if "raise" in a else "prepared", got,
+                                "sequence-raises")
+                    break
+                continue
+            model = canon_model_wf(a)
+            mine = {k: got[k] for k in ("steps", "ready", "watched", "pp")}
+            if model != mine:
+                ck.disagree({"kind": "sequence", "items": items[:i + 1]}, model, mine,
+                            f"prepare_workflow-observables at preparation #{i + 1} of a sequence")
+                break
 
 
 # --------------------------------------------------------------------------- ResourceFunction / FunctionTest
@@ -918,6 +1220,10 @@ def replay_case(case) -> str | None:
     if k == "workflow":
         setup_cache()
         return workflow_oracle(case["spec"], case["truth"], impl_workflow(case["spec"]))
+    if k == "sequence":
+        items = case["items"]
+        hit = sequence_oracle(items, cold().run(items))
+        return hit[1] if hit else None
     if k == "rf":
         setup_cache()
         return rf_oracle(case["truth"], case.get("body_ok", True), impl_rf(case["spec"]))
@@ -982,6 +1288,9 @@ def run(tier: str) -> int:
     t0 = time.time()
     run_workflows(ck, drv, 500 if quick else 6000, r)
     ck.notes.append(f"workflows: {time.time() - t0:.1f}s")
+    t0 = time.time()
+    run_sequences(ck, drv, 200 if quick else 3000, rng("c14-sequences"))
+    ck.notes.append(f"sequences: {time.time() - t0:.1f}s")
     run_functions(ck, drv, 250 if quick else 3000, r)
     report_setup_failures(ck, "C14")
     return ck.finish(
@@ -990,7 +1299,9 @@ def run(tier: str) -> int:
              "receivers the unrepaired extractor raised on) through real celpy + extract_argument_structure and the "
              "model; schema-valid Workflows with expressions in switchOn/skipIf/forEach.itemIn/inputs/state "
              "(earlier, later, own, unknown labels; duplicate labels; ref and refSwitch over cached / failing / "
-             "missing Logic), ResourceFunctions with overlay lists, FunctionTests over functions with constant / "
+             "missing Logic), sequences of 2-4 preparations in one process started cold (a Workflow, then updates of it "
+             "with the same step specs reordered / dropped / rotated / behind a new step, under the same or another "
+             "name; every preparation checked), ResourceFunctions with overlay lists, FunctionTests over functions with constant / "
              "input / locals-dependent template names; non-trivial = the expression or spec names at least one step / "
              "resource; distinct by source text / spec",
     )
@@ -1004,3 +1315,10 @@ def replay(path: str) -> int:
         print("replay:", json.dumps(v["case"])[:300], "::", bad)
         rc = rc or (1 if bad else 0)
     return rc
+
+
+if __name__ == "__main__":
+    import sys
+
+    if "--cold-server" in sys.argv:
+        _cold_server()
